@@ -43,6 +43,8 @@ def coupling_representatives():
     """values standing for the coupling symbols of the kernel checks in the current direction (only their ORDER matters)"""
     from fractions import Fraction
 
+    if isinstance(DIRECTION[0], dict):       # an explicit regime (e.g. a step down followed by a step up)
+        return dict(DIRECTION[0])
     fwd = DIRECTION[0] == "forward"
     rep = {"a0": Fraction(30, 1000), "a1": Fraction(20, 1000), "am": Fraction(25, 1000), "as0": Fraction(30, 1000), "as1": Fraction(20, 1000)}
     for i in range(8):
@@ -80,6 +82,7 @@ def setup(chk, real_is_identity=True):
     pe = PE(src, assume=assume_distinct_couplings, real_is_identity=real_is_identity)
     chk.assumptions.append("regime: a1 != a0 when they are distinct symbols (singlet dispatcher guard)")
     pe.ext["builtins.complex"] = _complex
+    pe.order_rep = coupling_representatives
     methods = pe.get_global("eko.kernels", "EvoMethods")
     members = pe.enum_members(methods.cls)
     chk.need(members and len(members) == 8, "EvoMethods enumeration changed (expected 8 members)")
